@@ -44,7 +44,7 @@ impl DPush {
             }
             DPush::Obj(o) => {
                 let adv = ad.map(|a| a.to_vec());
-                o.push_to_vec(&m.to_vec(), adv.as_ref(), Tag::from_bits(tag).ok_or("tag not representable")?).map_err(|e| e.to_string())
+                o.push_to_vec(&m.to_vec(), adv.as_ref(), Tag::from_bits_retain(tag)).map_err(|e| e.to_string())
             }
         }
     }
@@ -219,7 +219,8 @@ fn run_history(cx: &mut Ctx, rng: &mut Rng, hid: u64, depth: usize, class: usize
                 _ => rng.range(0, 15) + 16 * rng.range(0, 5),
             };
             let adlen = *rng.pick(&ADLENS);
-            let tag: u8 = if use_obj { *rng.pick(&[0u8, 1, 2, 3]) } else if rng.chance(1, 2) { *rng.pick(&[0u8, 1, 2, 3]) } else { rng.u8() };
+            // any tag byte, through both APIs (the object API's Tag type carries unknown bits unchanged)
+            let tag: u8 = if rng.chance(1, 2) { *rng.pick(&[0u8, 1, 2, 3]) } else { rng.u8() };
             let msg = rng.bytes(len);
             let ad = adlen.map(|n| rng.bytes(n));
             let before = counter_of(&dpush.parts().1);
